@@ -361,6 +361,17 @@ def check(ctx):
     inf = relevant(gw.get('infinite') or [])
     ctx.ob('C09.R6.go-words', 'infinite', len(inf) == 1 and re.fullmatch(r'\(\w+\.infinite=1\)', inf[0]) is not None,
            '`go infinite` sets limits.infinite and nothing else (%s)' % inf, site=gf_.loc())
+    # a clock limit ends the search only if the budget computed from it is a bounded number of milliseconds (C20.R1: non-negative,
+    # at most the cap, no wrap-around in the arithmetic)
+    from rules.common import SubCtx as _SC20
+    import props.C20 as c20
+    sub20 = _SC20(ctx)
+    c20.check(sub20)
+    bad20 = [r for r in sub20.results if not r[2] and r[0].startswith('C20.R1')]
+    ctx.ob('C09.R7.clock-budget-bounded', 'calculateTime', not bad20,
+           'the time budget derived from a clock is within [0, 70%% of the clock], so the polled time test ends the search (C20.R1)%s'
+           % ('' if not bad20 else ' — refuted: ' + '; '.join('%s %s at %s' % (r[0], r[1], r[4]) for r in bad20[:3])),
+           site=bad20[0][4] if bad20 else 'engine/time_manager.cpp')
     ctx.note('not decided: wall-clock adherence to movetime/clock limits (limits are polled every 4096/40960 node visits)')
 
 
